@@ -56,14 +56,31 @@ func generalizeErr(err error) error {
 		return errConnAborted
 	case errors.Is(err, syscall.EHOSTUNREACH):
 		return errUnreachable
+	case errors.Is(err, io.ErrShortWrite):
+		return io.ErrShortWrite
 	default:
 		if errN, ok := err.(net.Error); ok && errN.Timeout() {
 			return errConnTimeout
 		}
 	}
 
-	// if it is not a well known error, return it
-	return err
+	// If it is not a well known error do not return it: its text may embed the client's address
+	// (a *net.OpError prints both endpoints of the connection).
+	return addressFreeErr(err)
+}
+
+// addressFreeErr describes an error that generalizeErr does not know without repeating its text:
+// the failed operation and the errno when there are ones, otherwise the type of the error.
+func addressFreeErr(err error) error {
+	var errno syscall.Errno
+	if errors.As(err, &errno) {
+		var opErr *net.OpError
+		if errors.As(err, &opErr) {
+			return fmt.Errorf("%s: %w", opErr.Op, errno)
+		}
+		return errno
+	}
+	return fmt.Errorf("unrecognized error (%T)", err)
 }
 
 // this function is kinda ugly, uses undecorated logger, and passes things around it doesn't have to
@@ -156,7 +173,7 @@ func halfPipe(src net.Conn, dst net.Conn,
 	for {
 		nr, er := src.Read(buf)
 		if er != nil && nr > len(buf) {
-			log.Errorf("unexpected read len error - up:%t (%dB): %s", isUpload, nr, er)
+			log.Errorf("unexpected read len error - up:%t (%dB): %v", isUpload, nr, generalizeErr(er))
 		}
 
 		// A Read may return data together with an error (io.Reader: "callers should always
@@ -267,7 +284,7 @@ func Proxy(reg *DecoyRegistration, clientConn net.Conn, logger *log.Logger) {
 	if reg.Flags.GetProxyHeader() {
 		err = writePROXYHeader(covertConn, clientConn.RemoteAddr().String())
 		if err != nil {
-			logger.Errorf("failed to send PROXY header: %s", err)
+			logger.Errorf("failed to send PROXY header: %v", generalizeErr(err))
 			return
 		}
 	}
